@@ -16,6 +16,7 @@ ops
   segwit <sc> <tx> <i> <ht> <amount> <outs|.>            precomputed from those prevouts, `.` = direct
   taproot <tx> <i> <outs> <ht> <extflag> <annex> <ext> <pre 0|1>
   fromtx <outs> <tx> <i> <ht> <pre 0|1> <codesep>
+  fad <script> <target>     calc <script> <offset> <sig/sig/…|.> <const 0|1> <segwit 0|1>
   strip <script>            codefrom <script> <k>        annexext <wit/wit/…>      redeem <scriptSig> <spk>
   psbt.ecdsa <out|.> <redeem> <wscript> <nwu 0|1|2> <sht|.> <tx> <i> <ht|.>     0 witness utxo, 1 non-witness utxo, 2 both
   psbt.taproot <sht|.> <tx> <i> <outs, `-` = no utxo> <leafhash> <ht|.> <pre 0|1>     1 = the streamed view (precomputed)
@@ -145,6 +146,14 @@ def handleC09 : List String → Option String
     let annex ← fromHex? annex; let ext ← fromHex? ext
     let e ← tapExt? (if ext.isEmpty then 0 else 1) ext
     pure ("ok " ++ toHex (bip341Digest sha256 tx i outs ht (if annex.isEmpty then none else some annex) e))
+  | ["fad", s, t] => do
+    let s ← fromHex? s; let t ← fromHex? t
+    let r := Impl.findAndDeleteImpl s t
+    let c := findAndDelete s t
+    pure (if r == c then s!"ok {toHex r.1} {r.2}" else s!"specdiff impl={toHex r.1} {r.2} spec={toHex c.1} {c.2}")
+  | ["calc", s, off, sigs, cs, segwit] => do
+    let s ← fromHex? s; let off ← off.toNat?; let sigs ← listTok "/" fromHex? sigs
+    pure (render (Impl.calculateScriptCode s off sigs (cs == "1") (segwit == "1")))
   | ["strip", s] => do
     let s ← fromHex? s
     pure ("ok " ++ toHex (withoutCodeSeparators s))
